@@ -1,10 +1,13 @@
 import DilithiumVerif.Impl.Api
 import DilithiumVerif.Lemmas.Basic
+import DilithiumVerif.Lemmas.SignFips
 /-
   C05 — Signing is the specification's function of key, message and randomness.
   Part 1: how randomness enters.  `signature_with` is signing with the value of ρ′ (Dilithium) / rnd (ML-DSA)
   given explicitly — the specification's Sign_internal interface; `signature` is exactly that function applied
   to the bytes it draws (or to the derived / all-zero value in deterministic mode).
+  Part 2: `signing_is_spec_function` — the signature returned is the output of the specification's rejection loop
+  (FIPS 204 Alg. 7 / Dilithium 3.1 Sign) on the decoded key, μ and ρ″, and that output is unique.
 -/
 namespace DV.C05
 open DV
@@ -101,5 +104,48 @@ theorem signature_rand (p : Params) (fuel : Nat) (msg sk : List Nat) (tape : Tap
 theorem drawn_values : drawn P_mldsa44 true = 32 ∧ drawn P_mldsa65 true = 32 ∧ drawn P_mldsa87 true = 32
     ∧ drawn P_lvl2 true = 64 ∧ drawn P_lvl3 true = 64 ∧ drawn P_lvl5 true = 64 ∧ ∀ p, drawn p false = 0 := by
   refine ⟨by decide, by decide, by decide, by decide, by decide, by decide, fun p => rfl⟩
+
+/-! ## Signing = the specification's Sign, byte for byte
+
+`SignSpec.Accepts p A s1 s2 t0 μ ρ″ κ σ` (Lemmas/SignSpec.lean) transcribes one pass through the loop body of
+ML-DSA.Sign_internal with specification-level objects only: y = ExpandMask(ρ″, κ) (BitUnpack of SHAKE-256 output),
+w = A·y with coefficients in [0, q), w1 = HighBits(w), c̃ = H(μ ‖ w1Encode(w1)), c = SampleInBall(c̃), z = y + c·s1 with
+‖z‖∞ < γ1 − β, ‖LowBits(w − c·s2)‖∞ < γ2 − β, ‖c·t0‖∞ < γ2, h = MakeHint(−c·t0, w − c·s2 + c·t0) with at most ω ones,
+σ = sigEncode(c̃, z, h).  `SignFips.IsLoopOutput … κ σ` = accepted at κ and no σ′ is accepted at any j < κ.
+The code's iteration returns `accept σ` exactly when the specification accepts with σ (`SignSpec.model_accept_is_spec`,
+`SignSpec.spec_accept_forces` — the latter is where ‖c·s2‖∞ ≤ τ·η = β, `ConvBound.small_product`, is needed: the code tests
+w0 − c·s2 instead of LowBits(w − c·s2)). -/
+
+open DV.SignFips DV.EncodeSpec DV.XofSpec DV.Complete in
+/-- **Signing is the specification's function of key, message and randomness** (all six sets, all three modes). For a key
+    pair from `keypair` and any σ returned by `signature` on M′: with (ρ, K, tr, s1, s2, t0) the parts sk encodes
+    (sk = skEncode of them), A = ExpandA(ρ), μ = H(tr ‖ M′, 64), ρ″ = H(K ‖ rnd ‖ μ, 64) for ML-DSA — rnd the 32 bytes drawn
+    (hedged) or 32 zero bytes (deterministic) — and H(K ‖ μ, 64) or the 64 bytes drawn for Dilithium: σ is the output of
+    the specification's rejection loop at some κ below the iteration bound, no earlier iteration is accepted by the
+    specification, and any (κ′, σ′) with that property is (κ, σ). Randomness enters only as rnd / ρ″, and exactly the
+    stated number of bytes is consumed. -/
+theorem signing_is_spec_function (p : Params) (hp : p ∈ allParams) (seed : Option (List Nat)) (tape : Tape) (pk sk : List Nat) (tape' : Tape)
+    (hk : keypair p seed tape = .ok (pk, sk, tape'))
+    (fuel : Nat) (msg : List Nat) (randomized : Bool) (tape2 : Tape) (sig : List Nat) (tape3 : Tape)
+    (hs : signature p fuel msg sk randomized tape2 = .ok (some sig, tape3)) :
+    ∃ (rho tr key : List Nat) (s1 s2 t1 t0 : PolyVec) (mat : List PolyVec) (r : Option (List Nat)) (κ : Nat),
+      unpack_sk p sk = .ok (rho, tr, key, t0, s1, s2) ∧ sk = skEncode p.lvl rho key tr s1 s2 t0 ∧
+      matrix_expand p FUEL rho = .ok mat ∧ KeyFacts p mat s1 s2 t1 t0 ∧
+      (randomized = false → r = none ∧ tape3 = tape2) ∧
+      (randomized = true → ∃ n, n = (if p.mldsa = true then SEEDBYTES else CRHBYTES) ∧ n ≤ tape2.length ∧ r = some (tape2.take n) ∧
+        tape3 = tape2.drop n) ∧
+      κ < fuel ∧
+      IsLoopOutput p mat s1 s2 t0 (SHAKE256 (tr ++ msg) CRHBYTES) (rhoPrimeSpec p key (SHAKE256 (tr ++ msg) CRHBYTES) r) κ sig ∧
+      ∀ κ' σ', IsLoopOutput p mat s1 s2 t0 (SHAKE256 (tr ++ msg) CRHBYTES) (rhoPrimeSpec p key (SHAKE256 (tr ++ msg) CRHBYTES) r) κ' σ' →
+        κ' = κ ∧ σ' = sig :=
+  signature_is_spec p hp seed tape pk sk tape' hk fuel msg randomized tape2 sig tape3 hs
+
+open DV.ConvBound DV.Ranges DV.Complete in
+/-- ‖c·s‖∞ ≤ τ·η: the integer polynomial behind c·s2 (and c·s1) -/
+theorem challenge_times_short_is_small (c s : List Int) (hc : Tern c) (hsl : s.length = 256) (E : Int) (hE : 0 ≤ E)
+    (hs : ∀ x ∈ s, -E ≤ x ∧ x ≤ E) :
+    ∃ T : List Int, T.length = 256 ∧ (∀ x ∈ T, -((nzCount c : Int) * E) ≤ x ∧ x ≤ (nzCount c : Int) * E) ∧
+      ∀ i, i < 256 → (VecSem.El T i : K) = VecSem.El c i * VecSem.El s i :=
+  small_product c s hc hsl E hE hs
 
 end DV.C05
